@@ -172,6 +172,17 @@ func genUpload(t *rapid.T, withGaps bool) upScript {
 			}
 		}
 	}
+	if rapid.IntRange(0, 5).Draw(t, "reannounce") == 0 {
+		// the terminal announces the same files again on the same connection and uploads them a second time
+		s.Items = append(s.Items, upItem{Kind: "1210"})
+		for _, fi := range order {
+			s.Items = append(s.Items, upItem{Kind: "1211", File: fi})
+			for _, c := range perFile[fi] {
+				emit(c)
+			}
+			s.Items = append(s.Items, upItem{Kind: "1212", File: fi})
+		}
+	}
 	// partition of the byte stream into writes
 	s.CutMode = rapid.SampledFrom([]string{"per_item", "per_item", "coalesce_all", "control_plus_next", "random"}).Draw(t, "cutmode")
 	var ends []int
@@ -241,6 +252,7 @@ func judgeUpload(s upScript, r upResult, mode string) (labels []string, nt bool,
 	ri := 0
 	markerMeta := bytes.Contains(s.TerminalID, []byte("01cd")) || bytes.Contains(s.AlarmID, []byte("01cd"))
 	dups, gapsSeen, outOfOrder, multiGap := false, false, false, false
+	reannounced := false
 	lastOff := map[int]int{}
 	seenChunk := map[[3]int]bool{}
 	nextReply := func(kind string) (*ref.Frame, error) {
@@ -265,6 +277,16 @@ func judgeUpload(s upScript, r upResult, mode string) (labels []string, nt bool,
 		reqSerial := uint16(100 + k)
 		switch it.Kind {
 		case "1210", "1211":
+			if it.Kind == "1210" && k > 0 {
+				// a new announcement starts the files afresh
+				reannounced = true
+				for i, f := range s.Files {
+					cov[i] = newCoverage(f.Size)
+					reported[i] = false
+				}
+				lastOff = map[int]int{}
+				seenChunk = map[[3]int]bool{}
+			}
 			wantStage := attachment.ProgressStageInit
 			if it.Kind == "1211" {
 				wantStage = attachment.ProgressStageStart
@@ -394,6 +416,7 @@ func judgeUpload(s upScript, r upResult, mode string) (labels []string, nt bool,
 	lab(multiGap, "gaps>=2")
 	lab(outOfOrder, "chunks_out_of_order")
 	lab(len(s.Files) >= 2, "files>=2")
+	lab(reannounced, "announced_twice")
 	nChunks := 0
 	for _, it := range s.Items {
 		if it.Kind == "chunk" {
